@@ -112,6 +112,37 @@ func nontrivial(tags []string) bool {
 	return abs && pres
 }
 
+// zeroMask renders which of the given integers are zero (zero integers are encoded as present but
+// empty byte strings - the "zero/empty vs absent" axis of the domain); part of the signatures.
+func zeroMask(vals ...any) string {
+	var sb strings.Builder
+	for _, v := range vals {
+		z := false
+		switch x := v.(type) {
+		case *big.Int:
+			z = x == nil || x.Sign() == 0
+		case uint64:
+			z = x == 0
+		case uint16:
+			z = x == 0
+		case uint8:
+			z = x == 0
+		case int:
+			z = x == 0
+		case []byte:
+			z = len(x) == 0
+		case common.Hash:
+			z = x == common.Hash{}
+		}
+		if z {
+			sb.WriteByte('0')
+		} else {
+			sb.WriteByte('1')
+		}
+	}
+	return sb.String()
+}
+
 // ---- comparison --------------------------------------------------------------------------------
 
 type diff struct{ l []string }
